@@ -533,14 +533,16 @@ static bool has_varargs(MacroArg *args) {
   return false;
 }
 
-// Replace func-like macro parameters with given arguments.
-static Token *subst(Token *tok, MacroArg *args) {
+// Replace func-like macro parameters with given arguments and process
+// the ## operators. For an object-like macro there are no parameters
+// and # is an ordinary token.
+static Token *subst(Token *tok, MacroArg *args, bool is_objlike) {
   Token head = {};
   Token *cur = &head;
 
   while (tok->kind != TK_EOF) {
     // "#" followed by a parameter is replaced with stringized actuals.
-    if (equal(tok, "#")) {
+    if (equal(tok, "#") && !is_objlike) {
       MacroArg *arg = find_arg(args, tok->next);
       if (!arg)
         error_tok(tok->next, "'#' is not followed by a macro parameter");
@@ -664,7 +666,7 @@ static bool expand_macro(Token **rest, Token *tok) {
   // Object-like macro application
   if (m->is_objlike) {
     Hideset *hs = hideset_union(tok->hideset, new_hideset(m->name));
-    Token *body = add_hideset(m->body, hs);
+    Token *body = add_hideset(subst(m->body, NULL, true), hs);
     for (Token *t = body; t->kind != TK_EOF; t = t->next)
       t->origin = tok;
     *rest = append(body, tok->next);
@@ -691,7 +693,7 @@ static bool expand_macro(Token **rest, Token *tok) {
   Hideset *hs = hideset_intersection(macro_token->hideset, rparen->hideset);
   hs = hideset_union(hs, new_hideset(m->name));
 
-  Token *body = subst(m->body, args);
+  Token *body = subst(m->body, args, false);
   body = add_hideset(body, hs);
   for (Token *t = body; t->kind != TK_EOF; t = t->next)
     t->origin = macro_token;
